@@ -94,6 +94,16 @@ static bool slot(const std::string &w, size_t &i) { uint64_t v; if (!vh::to_u64(
 static bool i32(const std::string &w, int &o) {
     int64_t v; if (!vh::to_i64(w, v) || v < -2147483648LL || v > 2147483647LL) return false; o = (int)v; return true;
 }
+// a JSON integer literal of any size: optional '-', digits, no leading zero, not "-0", <= 25 digits
+static bool jsonInt(const std::string &w) {
+    size_t i = (!w.empty() && w[0] == '-') ? 1 : 0;
+    size_t nd = w.size() - i;
+    if (nd == 0 || nd > 25) return false;
+    for (size_t j = i; j < w.size(); ++j) if (w[j] < '0' || w[j] > '9') return false;
+    if (nd > 1 && w[i] == '0') return false;
+    if (i == 1 && nd == 1 && w[1] == '0') return false;
+    return true;
+}
 static bool hexstr(const std::string &w, std::string &o) {
     std::vector<uint8_t> d; if (!vh::unhex(w, d)) return false; o.assign(d.begin(), d.end()); return true;
 }
@@ -240,11 +250,22 @@ struct RpcCase {
     }
     // returns false for an ill-typed op
     bool act(const std::vector<std::string> &w) {
-        int id = 0, code = 0; uint64_t ms = 0;
+        int code = 0; uint64_t ms = 0;
         if (w[0] == "req" && w.size() == 2 && (w[1] == "0" || w[1] == "1")) { request(w[1] == "1"); return true; }
         if (w[0] == "note" && w.size() == 1) { rpc->notify("n"); return true; }
-        if (w[0] == "rsp" && w.size() == 3 && i32(w[1], id) && i32(w[2], code)) {
-            if (code == 0) peer->sendResult(id, Json(7)); else peer->sendError(id, code);
+        if (w[0] == "rsp" && w.size() == 3 && jsonInt(w[1]) && i32(w[2], code)) {
+            // the peer's response as text (the id literal may be beyond int), framed by hand
+            std::string text = code == 0
+                ? "{\"id\":" + w[1] + ",\"jsonrpc\":\"2.0\",\"result\":7}"
+                : "{\"error\":{\"code\":" + std::to_string(code) + "},\"id\":" + w[1] + ",\"jsonrpc\":\"2.0\"}";
+            std::string bytes;
+            if (kind.k == 'H') {
+                uint16_t m = kind.magic; uint32_t l = (uint32_t)text.size();
+                bytes.push_back((char)(m >> 8)); bytes.push_back((char)(m & 0xff));
+                bytes.push_back((char)(l >> 24)); bytes.push_back((char)(l >> 16)); bytes.push_back((char)(l >> 8)); bytes.push_back((char)l);
+            }
+            bytes += text;
+            pump(proto.get(), bytes);
             return true;
         }
         if (w[0] == "adv" && w.size() == 2 && vh::to_u64(w[1], ms) && ms <= 100000) { vt::advance_ms((int64_t)ms); return true; }
